@@ -91,12 +91,11 @@ void check(void)
 #elif SCEN == 4
     VASSERTM(in[0] + held(A) == 1 && in[2] + held(C) == 1, "A, C exactly once");
     VASSERTM(r[0] != NULL, "T0 pops after its own push: never NULL");
+    VASSERTM(r[1] != NULL, "the list is never empty while T1 pops (T0 pushes before it pops): never NULL");
     VASSERTM(r[0] != r[1], "the pops return different items");
-    VASSERTM(!(r[0] == C && r[1] == NULL), "if T0's pop_back got C (its own front push) then A was taken by T1 before");
-    VASSERTM(n == (r[1] == NULL ? 1 : 0), "what is left");
+    VASSERTM(n == 0, "both items were taken");
     if (r[0] == A && r[1] == C) VWITNESS("T0 takes A from the back, T1 takes C from the front");
     if (r[0] == C && r[1] == A) VWITNESS("T1 first");
-    if (r[0] == A && r[1] == NULL) VWITNESS("T1 found the list empty in between");
 #elif SCEN == 5
     VASSERTM(in[0] + held(A) == 1 && in[2] + held(C) == 1, "A, C exactly once");
     VASSERTM(r[0] == A || r[0] == NULL, "try_pop returns the head A or fails on a busy lock");
@@ -104,16 +103,25 @@ void check(void)
     if (r[0] == NULL) VWITNESS("try_pop lost against the pusher's lock");
     if (r[0] == A && r[1] == C) VWITNESS("both popped in order");
 #elif SCEN == 6
-    VASSERTM(in[0] + (r[0] != NULL) * 1 >= 0, "-");
     /* unchain takes everything that is in the list at its linearization point, as one ring in order */
-    { int ring[NI], rn = 0, rok = 1; volatile parsec_list_item_t *q = r[0];
-      if (q) { volatile parsec_list_item_t *pv = q->list_prev; for (; rn < NI + 1; ) { int k = idx(q); if (k < 0 || q->list_prev != pv) { rok = 0; break; } if (rn < NI) ring[rn] = k; rn++; pv = q; q = q->list_next; if (q == r[0]) break; } if (q != r[0]) rok = 0; }
-      VASSERTM(rok, "unchained ring well formed");
-      VASSERTM(rn + n == 4, "every item is either in the ring taken by unchain or still in the list");
-      VASSERTM((rn == 2 && ring[0] == 0 && ring[1] == 1 && n == 2 && pos[2] == 0 && pos[3] == 1) ||
-               (rn == 4 && ring[0] == 0 && ring[1] == 1 && ring[2] == 2 && ring[3] == 3 && n == 0),
-               "unchain before the chain: ring [A,B], list [C,D]; after it: ring [A,B,C,D], list empty");
-      if (rn == 2) VWITNESS("unchain first");
-      if (rn == 4) VWITNESS("chain first"); }
+    {
+        int ring[NI] = {-1, -1, -1, -1}, rn = 0, rok = 1;
+        volatile parsec_list_item_t *q = r[0], *pv = GHOST;
+        if (q != NULL) pv = q->list_prev;
+        for (int s = 0; s < NI && q != NULL; s++) {
+            int k = idx(q);
+            if (k < 0 || q->list_prev != pv) rok = 0;
+            ring[rn] = k; rn++;
+            pv = q; q = q->list_next;
+            if (q == r[0]) q = NULL;
+        }
+        VASSERTM(rok && (r[0] == NULL || r[0]->list_prev == pv), "unchained ring well formed");
+        VASSERTM(rn + n == 4, "every item is either in the ring taken by unchain or still in the list");
+        VASSERTM((rn == 2 && ring[0] == 0 && ring[1] == 1 && n == 2 && pos[2] == 0 && pos[3] == 1) ||
+                 (rn == 4 && ring[0] == 0 && ring[1] == 1 && ring[2] == 2 && ring[3] == 3 && n == 0),
+                 "unchain before the chain: ring [A,B], list [C,D]; after it: ring [A,B,C,D], list empty");
+        if (rn == 2) VWITNESS("unchain first");
+        if (rn == 4) VWITNESS("chain first");
+    }
 #endif
 }
